@@ -721,7 +721,9 @@ func (ce *CEnv) fieldByIndex(x CVal, idx int) CVal {
 			return CVal{T: ce.u.subObject(p.Elem(), idx, x.T), Ty: types.NewPointer(f.Type())}
 		}
 		region := ce.u.fieldRegion(p.Elem(), idx)
-		return CVal{T: mk(ce.te().sortOf(f.Type()), "select", ce.u.heapGet(ce.heap, region), x.T), Ty: f.Type()}
+		r := mk(ce.te().sortOf(f.Type()), "select", ce.u.heapGet(ce.heap, region), x.T)
+		ce.u.typeInvariant(r)
+		return CVal{T: r, Ty: f.Type()}
 	}
 	if st, ok := x.Ty.Underlying().(*types.Struct); ok {
 		s := ce.te().sortOf(x.Ty)
